@@ -40,6 +40,10 @@ type LedgerOpts struct {
 	OracleStart uint64
 	// NoDrain: stop right after the last generated step (pending records, holds and queue entries stay in the state)
 	NoDrain bool
+	// NativeStaking: before the workload the gateway registers client chain 0 and the chain's own token as a staking
+	// asset (priced by the first genesis asset's price token) and governance adds it to the dogfood AVS's assets: native
+	// delegations then carry voting power and are slashed like any other asset. Used by the liveness families only.
+	NativeStaking bool
 }
 
 func DefaultLedgerOpts() LedgerOpts {
@@ -322,6 +326,17 @@ func (w *World) RunLedger(o LedgerOpts) {
 		a := w.Assets[r.Intn(len(w.Assets))]
 		if s := w.pickStaker(a.Lz, false); s != nil {
 			w.Deposit(s, a, w.depositAmount(a, false))
+		}
+	}
+	if o.NativeStaking && !w.Dead {
+		st1 := w.gatewayCall("register_native_chain", "assets", sim.AddrAssets, "registerOrUpdateClientChain", nil, uint32(0), uint8(20), "exocore", "the chain itself", "ECDSA")
+		st2 := w.gatewayCall("register_native_token", "assets", sim.AddrAssets, "registerToken", nil, uint32(0), pad32(make([]byte, 20)), uint8(18), "Native", "the chain's own token", "TK0,Ethereum,8")
+		if st1.Ack && st2.Ack {
+			p := w.Last.Dog.Params
+			p.AssetIDs = append(append([]string{}, p.AssetIDs...), w.Native.ID)
+			st := w.GovStep("dogfood_params", &dogfoodtypes.MsgUpdateParams{Authority: authtypes.NewModuleAddress(govtypes.ModuleName).String(), Params: p})
+			st.P["native-staking"] = fmt.Sprint(st.Ack)
+			w.NativeStaking = st.Ack
 		}
 	}
 	slashN := 0
